@@ -6,10 +6,9 @@ EXTENDS ZSubst
 CONSTANT MaxLen
 
 Alphabet == {"$", "{", "}", "(", ")", "a", "B", "_", "1", "-"}
-Srcs     == SeqsUpTo(Alphabet, MaxLen)
 Scn(s, m, e) == [src |-> s, mk |-> m, ek |-> e, mtab |-> <<>>, etab |-> <<>>]
 
-Init == \E s \in Srcs :
+Init == \E n \in 0..MaxLen : \E s \in [1..n -> Alphabet] :
           \E m \in (IF Has(s, "$") THEN {"none", "all", "part"} ELSE {"none"}) :
             \E e \in (IF Has(s, "$") THEN {"none", "set"} ELSE {"none"}) :
               SInit(Scn(s, m, e))
